@@ -14,13 +14,16 @@ Import ListNotations.
 Open Scope Z_scope.
 
 Record obj := { o_prot : option cosemap; o_unprot : option cosemap; o_payload : option bytes;
-                o_mm : option wire; o_shared : bool }.
+                o_mm : option wire; o_shared : bool;
+                o_recips : list recip }.          (* COSE_Mac / COSE_Encrypt: m.recipients (AddRecipient, UnmarshalCBOR) *)
 
-Definition fresh : obj := {| o_prot := None; o_unprot := None; o_payload := None; o_mm := None; o_shared := false |}.
+Definition fresh : obj := {| o_prot := None; o_unprot := None; o_payload := None; o_mm := None; o_shared := false; o_recips := [] |}.
 
 Record prims := { pr_sig : sigprim; pr_mac : macprim; pr_enc : encprim }.
+Definition is_enc (k : kind) : bool := match k with KEnc0 | KEnc => true | _ => false end.
+Definition has_recips (k : kind) : bool := match k with KMac | KEnc => true | _ => false end.
 Definition pr_key (k : kind) (p : prims) : cosemap :=
-  match k with KSign1 => sg_key (pr_sig p) | KMac0 => mc_key (pr_mac p) | _ => en_key (pr_enc p) end.
+  match k with KSign1 => sg_key (pr_sig p) | KMac0 | KMac => mc_key (pr_mac p) | _ => en_key (pr_enc p) end.
 
 Inductive op :=
 | ODecode (data : bytes)                                   (* m.UnmarshalCBOR(data) *)
@@ -33,7 +36,8 @@ Inductive op :=
 | OSetUnprot (l : Z) (v : gval)
 | ODelUnprot (l : Z)
 | ONilUnprot
-| OSetPayload (b : option bytes).
+| OSetPayload (b : option bytes)
+| OAddRecip (r : recip).                                   (* m.AddRecipient(r) with a recipient not used before *)
 
 Inductive out := RNone | RErr | RPanic | ROk | RBytes (b : bytes).
 
@@ -44,16 +48,18 @@ Definition set_mm_unprot (w : wire) (u : option cosemap) : wire :=
 Definition upd_unprot (o : obj) (u : cosemap) : obj :=
   {| o_prot := o_prot o; o_unprot := Some u; o_payload := o_payload o;
      o_mm := if o_shared o then option_map (fun w => set_mm_unprot w (Some u)) (o_mm o) else o_mm o;
-     o_shared := o_shared o |}.
+     o_shared := o_shared o; o_recips := o_recips o |}.
 (* m.Unprotected is assigned another map (or nil) *)
 Definition new_unprot (o : obj) (u : option cosemap) : obj :=
-  {| o_prot := o_prot o; o_unprot := u; o_payload := o_payload o; o_mm := o_mm o; o_shared := false |}.
+  {| o_prot := o_prot o; o_unprot := u; o_payload := o_payload o; o_mm := o_mm o; o_shared := false; o_recips := o_recips o |}.
 Definition with_prot (o : obj) (p : option cosemap) : obj :=
-  {| o_prot := p; o_unprot := o_unprot o; o_payload := o_payload o; o_mm := o_mm o; o_shared := o_shared o |}.
+  {| o_prot := p; o_unprot := o_unprot o; o_payload := o_payload o; o_mm := o_mm o; o_shared := o_shared o; o_recips := o_recips o |}.
 Definition with_payload (o : obj) (b : option bytes) : obj :=
-  {| o_prot := o_prot o; o_unprot := o_unprot o; o_payload := b; o_mm := o_mm o; o_shared := o_shared o |}.
+  {| o_prot := o_prot o; o_unprot := o_unprot o; o_payload := b; o_mm := o_mm o; o_shared := o_shared o; o_recips := o_recips o |}.
 Definition install (o : obj) (w : wire) : obj :=
-  {| o_prot := o_prot o; o_unprot := o_unprot o; o_payload := o_payload o; o_mm := Some w; o_shared := true |}.
+  {| o_prot := o_prot o; o_unprot := o_unprot o; o_payload := o_payload o; o_mm := Some w; o_shared := true; o_recips := o_recips o |}.
+Definition with_recips (o : obj) (rs : list recip) : obj :=
+  {| o_prot := o_prot o; o_unprot := o_unprot o; o_payload := o_payload o; o_mm := o_mm o; o_shared := o_shared o; o_recips := rs |}.
 
 Definition res_out {A} (r : res A) : out := match r with Ok _ => ROk | Err => RErr | Panic => RPanic end.
 
@@ -61,15 +67,22 @@ Definition res_out {A} (r : res A) : out := match r with Ok _ => ROk | Err => RE
 Definition decode_step (k : kind) (o : obj) (data : bytes) : obj * out :=
   match unmarshal_wire k data with
   | Ok w =>
-      match headers_from_bytes (w_prot w) with
-      | Ok prot =>
-          let pl := match k, w_payload w with
-                    | KEnc0, _ => o_payload o
-                    | _, Some ((_ :: _) as x) => Some x
-                    | _, _ => o_payload o               (* an absent or empty payload leaves the field as it was *)
-                    end in
-          ({| o_prot := Some prot; o_unprot := w_unprot w; o_payload := pl; o_mm := Some w; o_shared := true |}, ROk)
-      | Err => (with_prot o None, RErr)                 (* m.Protected, err = HeadersFromBytes(..) assigns nil *)
+      (* COSE_Mac / COSE_Encrypt: the recipients are part of the struct; none, a nil one or a malformed one refuses
+         the message before any field of the object is touched *)
+      match (if has_recips k then recips_decode (w_extra w) else Ok (o_recips o)) with
+      | Ok rs =>
+          match headers_from_bytes (w_prot w) with
+          | Ok prot =>
+              let pl := match is_enc k, w_payload w with
+                        | true, _ => o_payload o
+                        | _, Some ((_ :: _) as x) => Some x
+                        | _, _ => o_payload o               (* an absent or empty payload leaves the field as it was *)
+                        end in
+              ({| o_prot := Some prot; o_unprot := w_unprot w; o_payload := pl; o_mm := Some w; o_shared := true; o_recips := rs |}, ROk)
+          | Err => (with_prot o None, RErr)                 (* m.Protected, err = HeadersFromBytes(..) assigns nil *)
+          | Panic => (o, RPanic)
+          end
+      | Err => (o, RErr)
       | Panic => (o, RPanic)
       end
   | Err => (o, RErr)
@@ -91,8 +104,7 @@ Definition produce_step (k : kind) (o : obj) (p : prims) (ext : option bytes) (d
   | Ok prot' =>
       let o1 := prepared_obj o key prot' in
       let u1 := omap (o_unprot o1) in
-      match k with
-      | KEnc0 =>
+      if is_enc k then
           match choose_nonce u1 key (en_nonce (pr_enc p)) draw with
           | Ok (nonce, u2) =>
               (* the drawn IV is written into the map in place *)
@@ -103,7 +115,7 @@ Definition produce_step (k : kind) (o : obj) (p : prims) (ext : option bytes) (d
               match headers_bytes prot' with
               | None => (o2, RErr)
               | Some pb =>
-                  match structure KEnc0 (Some pb) None ext None with
+                  match structure k (Some pb) None ext None with
                   | Ok aad =>
                       match en_encrypt (pr_enc p) nonce (match o_payload o with Some b => b | None => [] end) aad with
                       | Ok ct => (install o2 {| w_prot := Some pb; w_unprot := o_unprot o2; w_payload := None; w_auth := Some ct; w_extra := None |}, ROk)
@@ -115,7 +127,7 @@ Definition produce_step (k : kind) (o : obj) (p : prims) (ext : option bytes) (d
           | Err => (o1, RErr)
           | Panic => (o1, RPanic)
           end
-      | _ =>
+      else
           match headers_bytes prot' with
           | None => (o1, RErr)
           | Some pb =>
@@ -128,7 +140,6 @@ Definition produce_step (k : kind) (o : obj) (p : prims) (ext : option bytes) (d
               | r => (o1, res_out r)
               end
           end
-      end
   | Err => (o, RErr)
   | Panic => (o, RPanic)
   end.
@@ -143,9 +154,8 @@ Definition consume_step (k : kind) (o : obj) (p : prims) (ext : option bytes) : 
       | Some auth =>
           if negb (consume_gate (omap (o_prot o)) (pr_key k p)) then (o, RErr)
           else
-            match k with
-            | KEnc0 =>
-                match structure KEnc0 (w_prot w) None ext None with
+            if is_enc k then
+                match structure k (w_prot w) None ext None with
                 | Ok aad =>
                     match derive_nonce (omap (o_unprot o)) (pr_key k p) (en_nonce (pr_enc p)) with
                     | Ok nonce =>
@@ -157,21 +167,30 @@ Definition consume_step (k : kind) (o : obj) (p : prims) (ext : option bytes) : 
                     end
                 | r => (o, res_out r)
                 end
-            | _ =>
+            else
                 match structure k (w_prot w) None ext (w_payload w) with
                 | Ok tbs =>
                     if (match k with KSign1 => sg_verify (pr_sig p) tbs auth | _ => mc_verify (pr_mac p) tbs auth end) then (o, ROk) else (o, RErr)
                 | r => (o, res_out r)
                 end
-            end
       end
   end.
 
 (* ---------------------------------------------------------------- MarshalCBOR *)
+Definition marshal_multi (k : kind) (w : wire) (rs : list recip) : option bytes :=
+  match enc_headers_field (w_unprot w), enc_recips rs with
+  | Some u, Some r =>
+      Some (enc_tagged (cose_tag k) (enc_array (match k with
+                                                | KEnc => [enc_bytes (w_prot w); u; enc_bytes (w_auth w); r]
+                                                | _ => [enc_bytes (w_prot w); u; enc_bytes (w_payload w); enc_bytes (w_auth w); r]
+                                                end)))
+  | _, _ => None
+  end.
+
 Definition marshal_out (k : kind) (o : obj) : out :=
   match o_mm o with
   | Some w => match w_auth w with
-              | Some _ => match marshal_simple k w with Some b => RBytes b | None => RErr end
+              | Some _ => match (if has_recips k then marshal_multi k w (o_recips o) else marshal_simple k w) with Some b => RBytes b | None => RErr end
               | None => RErr
               end
   | None => RErr
@@ -190,11 +209,12 @@ Definition step (k : kind) (o : obj) (e : op) : obj * out :=
   | ODelUnprot l => (match o_unprot o with Some m => upd_unprot o (remove_label m (ilabel l)) | None => o end, RNone)
   | ONilUnprot => (new_unprot o None, RNone)
   | OSetPayload b => (with_payload o b, RNone)
+  | OAddRecip r => (with_recips o (o_recips o ++ [r])%list, ROk)
   end.
 
 (* the trace of a history: the outcome of every call and the exported fields after it *)
-Definition snap := (option cosemap * option cosemap * option bytes)%type.
-Definition snap_of (o : obj) : snap := (o_prot o, o_unprot o, o_payload o).
+Definition snap := (option cosemap * option cosemap * option bytes * list recip)%type.
+Definition snap_of (o : obj) : snap := (o_prot o, o_unprot o, o_payload o, o_recips o).
 Fixpoint run (k : kind) (o : obj) (ops : list op) : list (out * snap) :=
   match ops with
   | [] => []
